@@ -1,7 +1,541 @@
+/-
+  C02 — A value written on the command line is the value the field receives.
+
+  Theorems about `Model/Engine` + `Model/Fields`: rendering a typed assignment as canonical tokens
+  and parsing it returns exactly that assignment over the defaults, for any number of fields, any
+  order of the option segments, and both spellings.
+-/
+import SpVerif.Lemmas.Engine
 import SpVerif.Model.Fields
+import Mathlib.Data.Nat.Digits.Defs
 namespace SpVerif.C02
 open SpVerif
 
-theorem placeholder : matchCount .one [.A] = some 1 := by decide
+/-! ### 1. per-segment: what `take_action` stores -/
+
+/-- the value argparse hands to a `store` action for converted items `vs` (`_get_values`) -/
+def segVal (n : NArgs) (vs : List Scalar) : Val :=
+  match vs, n with
+  | [], .opt => .sc .none
+  | [v], .one => .sc v
+  | [v], .opt => .sc v
+  | _, _ => .list vs
+
+/-- all tokens convert (and pass `choices`) — stated with the model's own converter so that it
+    covers stateful `parse_tuple` closures too -/
+def ConvAll (fenv : FEnv) (act : Act) (i : Nat) (cs : List Nat) (toks : List Str)
+    (vs : List Scalar) (cs' : List Nat) : Prop :=
+  getValuesList fenv act i cs toks = .ok (vs, cs')
+
+theorem getValuesList_length (fenv : FEnv) (act : Act) (i : Nat) (cs cs' : List Nat)
+    (toks : List Str) (vs : List Scalar) (h : getValuesList fenv act i cs toks = .ok (vs, cs')) :
+    vs.length = toks.length := by
+  induction toks generalizing cs cs' vs with
+  | nil => simp only [getValuesList, Except.ok.injEq, Prod.mk.injEq] at h; simp [← h.1]
+  | cons t ts ih =>
+    simp only [getValuesList] at h
+    cases h1 : getValue fenv act i cs t with
+    | error e => rw [h1] at h; cases h
+    | ok p =>
+      obtain ⟨v, c1⟩ := p
+      rw [h1] at h
+      simp only at h
+      cases h2 : getValuesList fenv act i c1 ts with
+      | error e => rw [h2] at h; cases h
+      | ok q =>
+        obtain ⟨vs2, c2⟩ := q
+        rw [h2] at h
+        simp only [Except.ok.injEq, Prod.mk.injEq] at h
+        rw [← h.1]
+        simp [ih c1 c2 vs2 h2]
+
+theorem getValues_eq (fenv : FEnv) (act : Act) (i : Nat) (cs cs' : List Nat) (toks : List Str)
+    (vs : List Scalar) (h : ConvAll fenv act i cs toks vs cs') :
+    getValues fenv act i cs toks = .ok (segVal act.nargs vs, cs') := by
+  unfold ConvAll at h
+  have hlen := getValuesList_length fenv act i cs cs' toks vs h
+  unfold getValues
+  match toks, act.nargs, vs, hlen, h with
+  | [], .opt, [], _, h =>
+    simp only [getValuesList, Except.ok.injEq, Prod.mk.injEq, true_and] at h
+    simp [segVal, h]
+  | [s], .one, [v], _, h =>
+    simp only [getValuesList] at h
+    cases h1 : getValue fenv act i cs s with
+    | error e => rw [h1] at h; cases h
+    | ok p =>
+      obtain ⟨v', c1⟩ := p
+      rw [h1] at h
+      simp only [Except.ok.injEq, Prod.mk.injEq, List.cons.injEq, and_true] at h
+      rw [← h.1, ← h.2]
+      simp only [Except.map, segVal, h1]
+  | [s], .opt, [v], _, h =>
+    simp only [getValuesList] at h
+    cases h1 : getValue fenv act i cs s with
+    | error e => rw [h1] at h; cases h
+    | ok p =>
+      obtain ⟨v', c1⟩ := p
+      rw [h1] at h
+      simp only [Except.ok.injEq, Prod.mk.injEq, List.cons.injEq, and_true] at h
+      rw [← h.1, ← h.2]
+      simp only [Except.map, segVal, h1]
+  | [], .one, [], _, h => simp [h, Except.map, segVal]
+  | [], .star, [], _, h => simp [h, Except.map, segVal]
+  | [], .plus, [], _, h => simp [h, Except.map, segVal]
+  | [], .num _, [], _, h => simp [h, Except.map, segVal]
+  | [s], .star, [v], _, h => simp [h, Except.map, segVal]
+  | [s], .plus, [v], _, h => simp [h, Except.map, segVal]
+  | [s], .num _, [v], _, h => simp [h, Except.map, segVal]
+  | s1 :: s2 :: ss, n, v1 :: v2 :: vv, _, h => cases n <;> simp [h, Except.map, segVal]
+
+/-- one store occurrence writes exactly `segVal` at the action's destination -/
+theorem takeAction_store (fenv : FEnv) (tbl : List Act) (st : St) (i : Nat) (o : Str)
+    (toks : List Str) (act : Act) (vs : List Scalar) (cs' : List Nat)
+    (hact : tbl[i]? = some act) (hk : act.kind = .store)
+    (hconv : ConvAll fenv act i st.counters toks vs cs') :
+    takeAction fenv tbl st i o toks =
+      .ok { st with ns := setKey st.ns act.dest (segVal act.nargs vs), seen := i :: st.seen,
+                    counters := cs' } := by
+  unfold takeAction
+  simp only [hact, hk, getValues_eq fenv act i st.counters cs' toks vs hconv]
+
+/-! ### 2. whole command line -/
+
+/-- a fully specified segment: which action, the tokens, and the scalars they denote -/
+structure VSeg where
+  seg : Seg
+  vals : List Scalar
+
+/-- namespace after all segments: left-to-right `setattr` -/
+def storeAll (tbl : List Act) (ns : List (Str × Val)) : List VSeg → List (Str × Val)
+  | [] => ns
+  | v :: vs => match tbl[v.seg.idx]? with
+    | some a => storeAll tbl (setKey ns a.dest (segVal a.nargs v.vals)) vs
+    | none => storeAll tbl ns vs
+
+/-- every segment is a `store` occurrence whose tokens convert; counters are left alone
+    (stateless `type=` callables: everything except heterogeneous tuples) -/
+structure SegOk (fenv : FEnv) (tbl : List Act) (cs : List Nat) (v : VSeg) : Prop where
+  store : ∃ a, tbl[v.seg.idx]? = some a ∧ a.kind = .store ∧ arityOk a.nargs v.seg.toks.length ∧
+    ConvAll fenv a v.seg.idx cs v.seg.toks v.vals cs
+
+theorem applySegs_store (fenv : FEnv) (tbl : List Act) (vsegs : List VSeg) (st : St)
+    (h : ∀ v ∈ vsegs, SegOk fenv tbl st.counters v) :
+    applySegs fenv tbl st (vsegs.map (·.seg)) =
+      .ok { ns := storeAll tbl st.ns vsegs, extras := st.extras,
+            seen := (vsegs.map (·.seg.idx)).reverse ++ st.seen, counters := st.counters } := by
+  induction vsegs generalizing st with
+  | nil => simp [applySegs, storeAll]
+  | cons v vs ih =>
+    obtain ⟨a, ha, hk, _, hconv⟩ := (h v (by simp)).store
+    simp only [List.map_cons, applySegs]
+    rw [takeAction_store fenv tbl st v.seg.idx v.seg.opt v.seg.toks a v.vals st.counters ha hk hconv]
+    have := ih { ns := setKey st.ns a.dest (segVal a.nargs v.vals), extras := st.extras,
+                 seen := v.seg.idx :: st.seen, counters := st.counters }
+      (fun x hx => h x (by simp [hx]))
+    simp only at this ⊢
+    rw [this]
+    simp [storeAll, ha]
+
+/-- `finish` changes nothing when every required action was seen and no unseen action has a
+    string default that `type=` would rewrite -/
+def FinishQuiet (fenv : FEnv) (st : St) (a : Act) (i : Nat) : Prop :=
+  st.seen.contains i = true ∨
+    (a.required = false ∧
+      ∀ s, a.default = some (.sc (.str s)) → st.ns.lookup a.dest = some (.sc (.str s)) →
+        a.conv.apply fenv (st.counters.getD i 0) s = .ok (.str s) ∧
+        setKey st.ns a.dest (.sc (.str s)) = st.ns)
+
+theorem finish_quiet (fenv : FEnv) (tbl : List Act) (st : St) (l : List (Act × Nat))
+    (h : ∀ p ∈ l, FinishQuiet fenv st p.1 p.2) : finish fenv tbl st l = .ok st := by
+  induction l with
+  | nil => rfl
+  | cons p ps ih =>
+    obtain ⟨a, i⟩ := p
+    have ih' := ih (fun q hq => h q (by simp [hq]))
+    rw [finish]
+    by_cases hs : st.seen.contains i = true
+    · simp only [hs, ↓reduceIte, ih']
+    · rcases h (a, i) (by simp) with hs' | ⟨hreq, hd⟩
+      · exact absurd hs' hs
+      · have hs2 : st.seen.contains i = false := by simpa using hs
+        have hreq' : a.required = false := hreq
+        have hd' : ∀ s, a.default = some (.sc (.str s)) → st.ns.lookup a.dest = some (.sc (.str s)) →
+            a.conv.apply fenv (st.counters.getD i 0) s = .ok (.str s) ∧
+            setKey st.ns a.dest (.sc (.str s)) = st.ns := hd
+        simp only [hs2, hreq', Bool.false_eq_true, ↓reduceIte]
+        cases hdef : a.default with
+        | none => exact ih'
+        | some d =>
+          cases d with
+          | list l => exact ih'
+          | tuple l => exact ih'
+          | sc x =>
+            cases x with
+            | str s =>
+              simp only
+              by_cases hl : st.ns.lookup a.dest = some (.sc (.str s))
+              · obtain ⟨hc, hk⟩ := hd' s hdef hl
+                simp only [hl, ↓reduceIte, hc, hk]
+                exact ih'
+              · simp only [hl, ↓reduceIte]
+                exact ih'
+            | int _ => exact ih'
+            | float _ => exact ih'
+            | bool _ => exact ih'
+            | none => exact ih'
+            | path _ => exact ih'
+            | enum _ _ => exact ih'
+
+/-- **C02 (engine round trip).** A command line made of option segments — each an exact option
+    string followed by value tokens that do not start with `-`, fitting the action's `nargs`, and
+    converting under its `type=` — is accepted, leaves no leftovers, and stores for every segment
+    exactly the converted value; everything else keeps its initial (default) entry.
+    Any number of segments, any order, any table. -/
+theorem c02_engine_roundtrip (fenv : FEnv) (tbl : List Act) (cs : List Nat) (vsegs : List VSeg)
+    (hlex : ∀ v ∈ vsegs, LexOk tbl v.seg)
+    (hok : ∀ v ∈ vsegs, SegOk fenv tbl cs v)
+    (hfin : ∀ p ∈ tbl.zipIdx, FinishQuiet fenv
+      { ns := storeAll tbl (initNs tbl) vsegs, extras := [],
+        seen := (vsegs.map (·.seg.idx)).reverse ++ [], counters := cs } p.1 p.2) :
+    runStrict fenv tbl cs (render (vsegs.map (·.seg))) =
+      .ok (storeAll tbl (initNs tbl) vsegs) [] cs := by
+  unfold runStrict run
+  rw [lexAll_render tbl (vsegs.map (·.seg)) (by
+    intro s hs
+    obtain ⟨v, hv, rfl⟩ := List.mem_map.mp hs
+    exact hlex v hv)]
+  simp only
+  rw [consume_render fenv tbl (vsegs.map (·.seg)) _ _ (by
+        have : (vsegs.map (·.seg)).length ≤ (render (vsegs.map (·.seg))).length := by
+          generalize vsegs.map (·.seg) = segs
+          induction segs with
+          | nil => simp
+          | cons s ss ih => simp only [render, List.flatMap_cons, renderSeg, List.length_append,
+              List.length_cons] at ih ⊢; omega
+        omega) (by
+        intro s hs
+        obtain ⟨v, hv, rfl⟩ := List.mem_map.mp hs
+        obtain ⟨a, ha, hk, har, _⟩ := (hok v hv).store
+        exact ⟨a, ha, by rw [hk]; decide, har⟩)]
+  rw [applySegs_store fenv tbl vsegs _ (by simpa using hok)]
+  simp only
+  rw [finish_quiet fenv tbl _ _ hfin]
+
+/-! ### 3. what a later lookup sees: the last segment for that destination, else the default -/
+
+theorem lookup_map_same (ns : List (Str × Val)) (k : Str) (v : Val)
+    (h : ns.any (fun p => p.1 = k) = true) :
+    (ns.map (fun p => if p.1 = k then (k, v) else p)).lookup k = some v := by
+  induction ns with
+  | nil => simp at h
+  | cons p ps ih =>
+    obtain ⟨pk, pv⟩ := p
+    by_cases hk : pk = k
+    · subst hk; simp [List.lookup]
+    · have hk' : (k == pk) = false := by simp; exact fun hh => hk hh.symm
+      simp only [List.any_cons, hk, decide_false, Bool.false_or] at h
+      simp only [List.map_cons, hk, ↓reduceIte, List.lookup, hk']
+      exact ih h
+
+theorem lookup_append_same (ns : List (Str × Val)) (k : Str) (v : Val)
+    (h : ns.any (fun p => p.1 = k) = false) : (ns ++ [(k, v)]).lookup k = some v := by
+  induction ns with
+  | nil => simp [List.lookup]
+  | cons p ps ih =>
+    obtain ⟨pk, pv⟩ := p
+    simp only [List.any_cons, Bool.or_eq_false_iff, decide_eq_false_iff_not] at h
+    have hk' : (k == pk) = false := by simp; exact fun hh => h.1 hh.symm
+    simp only [List.cons_append, List.lookup, hk']
+    exact ih h.2
+
+theorem lookup_setKey_same (ns : List (Str × Val)) (k : Str) (v : Val) :
+    (setKey ns k v).lookup k = some v := by
+  unfold setKey
+  split
+  · rename_i h; exact lookup_map_same ns k v h
+  · rename_i h
+    apply lookup_append_same ns k v
+    cases hb : ns.any (fun p => decide (p.1 = k)) with
+    | true => exact absurd hb h
+    | false => rfl
+
+theorem lookup_map_other (ns : List (Str × Val)) (k k' : Str) (v : Val) (hne : k' ≠ k) :
+    (ns.map (fun p => if p.1 = k then (k, v) else p)).lookup k' = ns.lookup k' := by
+  induction ns with
+  | nil => rfl
+  | cons p ps ih =>
+    obtain ⟨pk, pv⟩ := p
+    by_cases hk : pk = k
+    · subst hk
+      have : (k' == pk) = false := by simp [hne]
+      simp only [List.map_cons, ↓reduceIte, List.lookup, this]
+      exact ih
+    · simp only [List.map_cons, hk, ↓reduceIte, List.lookup]
+      split
+      · rfl
+      · exact ih
+
+theorem lookup_append_other (ns : List (Str × Val)) (k k' : Str) (v : Val) (hne : k' ≠ k) :
+    (ns ++ [(k, v)]).lookup k' = ns.lookup k' := by
+  induction ns with
+  | nil =>
+    have : (k' == k) = false := by simp [hne]
+    simp [List.lookup, this]
+  | cons p ps ih =>
+    obtain ⟨pk, pv⟩ := p
+    simp only [List.cons_append, List.lookup]
+    split
+    · rfl
+    · exact ih
+
+theorem lookup_setKey_other (ns : List (Str × Val)) (k k' : Str) (v : Val) (hne : k' ≠ k) :
+    (setKey ns k v).lookup k' = ns.lookup k' := by
+  unfold setKey
+  split
+  · exact lookup_map_other ns k k' v hne
+  · exact lookup_append_other ns k k' v hne
+
+/-- a destination no segment writes keeps its initial entry -/
+theorem storeAll_untouched (tbl : List Act) (ns : List (Str × Val)) (vsegs : List VSeg) (d : Str)
+    (h : ∀ v ∈ vsegs, ∀ a, tbl[v.seg.idx]? = some a → a.dest ≠ d) :
+    (storeAll tbl ns vsegs).lookup d = ns.lookup d := by
+  induction vsegs generalizing ns with
+  | nil => rfl
+  | cons v vs ih =>
+    simp only [storeAll]
+    cases ha : tbl[v.seg.idx]? with
+    | none => exact ih ns (fun x hx => h x (by simp [hx]))
+    | some a =>
+      simp only
+      rw [ih _ (fun x hx => h x (by simp [hx]))]
+      exact lookup_setKey_other ns a.dest d _ (fun hh => h v (by simp) a ha hh.symm)
+
+/-- **the field receives the value written for it** (when written once), wherever its segment
+    stands among the others — hence order-independence -/
+theorem storeAll_written (tbl : List Act) (ns : List (Str × Val)) (pre post : List VSeg)
+    (v : VSeg) (a : Act) (ha : tbl[v.seg.idx]? = some a)
+    (hpost : ∀ w ∈ post, ∀ b, tbl[w.seg.idx]? = some b → b.dest ≠ a.dest) :
+    (storeAll tbl ns (pre ++ v :: post)).lookup a.dest = some (segVal a.nargs v.vals) := by
+  induction pre generalizing ns with
+  | nil =>
+    simp only [List.nil_append, storeAll, ha]
+    rw [storeAll_untouched tbl _ post a.dest hpost]
+    exact lookup_setKey_same ns a.dest _
+  | cons p ps ih =>
+    simp only [List.cons_append, storeAll]
+    split <;> exact ih _
+
+/-- two segments never write the same destination -/
+def Distinct (tbl : List Act) (v w : VSeg) : Prop :=
+  ∀ a b, tbl[v.seg.idx]? = some a → tbl[w.seg.idx]? = some b → a.dest ≠ b.dest
+
+theorem distinct_symm (tbl : List Act) (v w : VSeg) (h : Distinct tbl v w) : Distinct tbl w v :=
+  fun a b ha hb hh => h b a hb ha hh.symm
+
+theorem lookup_of_writer (tbl : List Act) (ns : List (Str × Val)) (l : List VSeg)
+    (hl : l.Pairwise (Distinct tbl)) (v : VSeg) (hv : v ∈ l) (a : Act)
+    (ha : tbl[v.seg.idx]? = some a) :
+    (storeAll tbl ns l).lookup a.dest = some (segVal a.nargs v.vals) := by
+  obtain ⟨pre, post, rfl⟩ := List.append_of_mem hv
+  apply storeAll_written tbl ns pre post v a ha
+  intro w hw b hb
+  have h1 := (List.pairwise_append.mp hl).2.1
+  have h2 := (List.pairwise_cons.mp h1).1 w hw
+  exact fun hh => h2 a b ha hb hh.symm
+
+/-- **Order independence**: if every destination is written by at most one segment, any
+    permutation of the segments yields the same value at every destination. -/
+theorem c02_order_independent (tbl : List Act) (ns : List (Str × Val)) (l1 l2 : List VSeg)
+    (hperm : l1.Perm l2) (hdistinct : l1.Pairwise (Distinct tbl)) (d : Str) :
+    (storeAll tbl ns l1).lookup d = (storeAll tbl ns l2).lookup d := by
+  have hd2 : l2.Pairwise (Distinct tbl) :=
+    hperm.pairwise hdistinct (fun {v w} h => distinct_symm tbl v w h)
+  by_cases hw : ∃ v ∈ l1, ∃ a, tbl[v.seg.idx]? = some a ∧ a.dest = d
+  · obtain ⟨v, hv, a, ha, rfl⟩ := hw
+    rw [lookup_of_writer tbl ns l1 hdistinct v hv a ha,
+      lookup_of_writer tbl ns l2 hd2 v (hperm.mem_iff.mp hv) a ha]
+  · have hno : ∀ l : List VSeg, (∀ v ∈ l, v ∈ l1) →
+        ∀ v ∈ l, ∀ a, tbl[v.seg.idx]? = some a → a.dest ≠ d := by
+      intro l hsub v hv a ha hd
+      exact hw ⟨v, hsub v hv, a, ha, hd⟩
+    rw [storeAll_untouched tbl ns l1 d (hno l1 (fun _ h => h)),
+      storeAll_untouched tbl ns l2 d (hno l2 (fun v h => hperm.mem_iff.mpr h))]
+
+/-! ### 4. canonical tokens convert back (per type) -/
+
+/-- Python's `str(n)` for a natural number: most-significant digit first -/
+def digitChar (d : Nat) : Char := Char.ofNat (48 + d)
+
+def printNat (n : Nat) : Str :=
+  if n = 0 then ['0'] else ((Nat.digits 10 n).reverse.map digitChar)
+
+def printInt (i : Int) : Str :=
+  match i with
+  | .ofNat n => printNat n
+  | .negSucc n => '-' :: printNat (n + 1)
+
+theorem isDigit_digitChar (d : Nat) (h : d < 10) : isDigit (digitChar d) = true ∧
+    (digitChar d).toNat - 48 = d := by
+  have : d = 0 ∨ d = 1 ∨ d = 2 ∨ d = 3 ∨ d = 4 ∨ d = 5 ∨ d = 6 ∨ d = 7 ∨ d = 8 ∨ d = 9 := by omega
+  rcases this with h | h | h | h | h | h | h | h | h | h <;> subst h <;> decide
+
+theorem digitChar_ne_underscore (d : Nat) (h : d < 10) : digitChar d ≠ '_' := by
+  have : d = 0 ∨ d = 1 ∨ d = 2 ∨ d = 3 ∨ d = 4 ∨ d = 5 ∨ d = 6 ∨ d = 7 ∨ d = 8 ∨ d = 9 := by omega
+  rcases this with h | h | h | h | h | h | h | h | h | h <;> subst h <;> decide
+
+/-- reading most-significant-first digits accumulates `ofDigits` of the reversed list -/
+theorem parseNatGo_digits (ds : List Nat) (hds : ∀ d ∈ ds, d < 10) (acc : Nat) (prev : Bool)
+    (hne : ds ≠ [] ∨ prev = true) :
+    parseNatGo (ds.map digitChar) acc prev = some (ds.foldl (fun a d => a * 10 + d) acc) := by
+  induction ds generalizing acc prev with
+  | nil =>
+    rcases hne with h | h
+    · exact absurd rfl h
+    · simp [parseNatGo, h]
+  | cons d rest ih =>
+    have hd := hds d (by simp)
+    obtain ⟨h1, h2⟩ := isDigit_digitChar d hd
+    simp only [List.map_cons, parseNatGo, h1, ↓reduceIte, h2, List.foldl_cons]
+    exact ih (fun x hx => hds x (by simp [hx])) _ true (Or.inr rfl)
+
+theorem foldl_ofDigits (ds : List Nat) (acc : Nat) :
+    ds.foldl (fun a d => a * 10 + d) acc = acc * 10 ^ ds.length + Nat.ofDigits 10 ds.reverse := by
+  induction ds generalizing acc with
+  | nil => simp [Nat.ofDigits]
+  | cons d rest ih =>
+    simp only [List.foldl_cons, ih, List.reverse_cons, Nat.ofDigits_append, Nat.ofDigits_singleton,
+      List.length_reverse, List.length_cons]
+    ring
+
+theorem parseNat_printNat (n : Nat) : parseNat (printNat n) = some n := by
+  unfold printNat parseNat
+  by_cases h0 : n = 0
+  · subst h0; decide
+  · simp only [h0, ↓reduceIte]
+    have hne : (Nat.digits 10 n).reverse ≠ [] := by
+      simp [Nat.digits_ne_nil_iff_ne_zero, h0]
+    rw [parseNatGo_digits _ (by
+      intro d hd
+      exact Nat.digits_lt_base (by norm_num) (List.mem_reverse.mp hd)) 0 false (Or.inl hne)]
+    rw [foldl_ofDigits]
+    simp [Nat.ofDigits_digits]
+
+theorem printNat_ascii (n : Nat) : isAscii (printNat n) = true := by
+  unfold printNat isAscii
+  split
+  · decide
+  · simp only [List.all_map, List.all_eq_true, List.mem_reverse, Function.comp_apply]
+    intro d hd
+    have hlt := Nat.digits_lt_base (by norm_num : 1 < 10) hd
+    have : d = 0 ∨ d = 1 ∨ d = 2 ∨ d = 3 ∨ d = 4 ∨ d = 5 ∨ d = 6 ∨ d = 7 ∨ d = 8 ∨ d = 9 := by omega
+    rcases this with h | h | h | h | h | h | h | h | h | h <;> subst h <;> decide
+
+theorem printNat_head_digit (n : Nat) : ∃ c r, printNat n = c :: r ∧ isDigit c = true := by
+  unfold printNat
+  split
+  · exact ⟨'0', [], rfl, by decide⟩
+  · rename_i h0
+    cases hd : (Nat.digits 10 n).reverse with
+    | nil =>
+      exact absurd (List.reverse_eq_nil_iff.mp hd) (Nat.digits_ne_nil_iff_ne_zero.mpr h0)
+    | cons d rest =>
+      refine ⟨digitChar d, rest.map digitChar, by simp, ?_⟩
+      have : d ∈ Nat.digits 10 n := by
+        have : d ∈ (Nat.digits 10 n).reverse := by rw [hd]; simp
+        exact List.mem_reverse.mp this
+      exact (isDigit_digitChar d (Nat.digits_lt_base (by norm_num) this)).1
+
+theorem stripWs_of_digit_ends (s : Str) (h : ∀ c ∈ s, isSpace c = false) : stripWs s = s := by
+  have hl : ∀ t : Str, (∀ c ∈ t, isSpace c = false) → lstripWs t = t := by
+    intro t ht
+    cases t with
+    | nil => rfl
+    | cons c cs => simp [lstripWs, ht c (by simp)]
+  unfold stripWs
+  rw [hl s h, hl s.reverse (fun c hc => h c (List.mem_reverse.mp hc))]
+  simp
+
+theorem printNat_nospace (n : Nat) : ∀ c ∈ printNat n, isSpace c = false := by
+  unfold printNat
+  split
+  · intro c hc; simp at hc; subst hc; decide
+  · intro c hc
+    simp only [List.mem_map, List.mem_reverse] at hc
+    obtain ⟨d, hd, rfl⟩ := hc
+    have hlt := Nat.digits_lt_base (by norm_num : 1 < 10) hd
+    have : d = 0 ∨ d = 1 ∨ d = 2 ∨ d = 3 ∨ d = 4 ∨ d = 5 ∨ d = 6 ∨ d = 7 ∨ d = 8 ∨ d = 9 := by omega
+    rcases this with h | h | h | h | h | h | h | h | h | h <;> subst h <;> decide
+
+/-- **`int(str(i)) == i` for every integer** (no bound on the number of digits). -/
+theorem c02_int_roundtrip (i : Int) : parseInt (printInt i) = .ok (.int i) := by
+  cases i with
+  | ofNat n =>
+    obtain ⟨c, r, hcr, hdig⟩ := printNat_head_digit n
+    have hstrip := stripWs_of_digit_ends (printNat n) (printNat_nospace n)
+    unfold parseInt printInt
+    simp only [printNat_ascii, Bool.not_true, Bool.false_eq_true, ↓reduceIte, hstrip]
+    have hc1 : c ≠ '-' := by intro h; subst h; simp [isDigit] at hdig
+    have hc2 : c ≠ '+' := by intro h; subst h; simp [isDigit] at hdig
+    rw [hcr]
+    split
+    · rename_i h; simp at h; exact absurd h.1 hc1
+    · rename_i h; simp at h; exact absurd h.1 hc2
+    · rw [← hcr, parseNat_printNat]; rfl
+  | negSucc n =>
+    unfold parseInt printInt
+    have hasc : isAscii ('-' :: printNat (n + 1)) = true := by
+      simp only [isAscii, List.all_cons, Bool.and_eq_true]
+      exact ⟨by decide, printNat_ascii (n + 1)⟩
+    have hstrip : stripWs ('-' :: printNat (n + 1)) = '-' :: printNat (n + 1) := by
+      apply stripWs_of_digit_ends
+      intro c hc
+      rcases List.mem_cons.mp hc with h | h
+      · subst h; decide
+      · exact printNat_nospace (n + 1) c h
+    simp only [hasc, Bool.not_true, Bool.false_eq_true, ↓reduceIte, hstrip, parseNat_printNat]
+    rw [Int.negSucc_eq]
+    congr 2
+
+/-- strings come back verbatim -/
+theorem c02_str_roundtrip (fenv : FEnv) (s : Str) : BConv.apply fenv .str s = .ok (.str s) := rfl
+
+/-- enum members are written and read back by *name* -/
+theorem c02_enum_roundtrip (fenv : FEnv) (cls : Str) (members : List Str) (m : Str)
+    (h : m ∈ members) : BConv.apply fenv (.enumName cls members) m = .ok (.enum cls m) := by
+  simp [BConv.apply, h]
+
+/-- booleans: `str(True)`/`str(False)` parse back -/
+theorem c02_bool_roundtrip (fenv : FEnv) (b : Bool) :
+    BConv.apply fenv .bool (if b then "True".toList else "False".toList) = .ok (.bool b) := by
+  cases b
+  · show (match str2bool "False".toList with | some b => ConvOut.ok (.bool b) | none => .typeErr) = _
+    decide
+  · show (match str2bool "True".toList with | some b => ConvOut.ok (.bool b) | none => .typeErr) = _
+    decide
+
+/-- floats: by hypothesis on the environment (`float(repr(x)) == x` is CPython's business) -/
+theorem c02_float_roundtrip (fenv : FEnv) (r : Str) (h : fenv.lookup r = some (some r)) :
+    BConv.apply fenv .float r = .ok (.float r) := by
+  simp [BConv.apply, h]
+
+/-! ### 5. non-vacuity: a concrete heterogeneous command line meets every hypothesis -/
+
+def demoTbl : List Act :=
+  [ helpAct,
+    { opts := ["--n".toList], dest := "c.n".toList, kind := .store, nargs := .one, conv := .base .int,
+      choices := none, required := false, default := some (.sc (.int 0)) },
+    { opts := ["--l".toList], dest := "c.l".toList, kind := .store, nargs := .star, conv := .base .str,
+      choices := none, required := false, default := some (.list []) } ]
+
+example : runStrict [] demoTbl [0, 0, 0] ["--l".toList, "a".toList, "".toList, "--n".toList, "-5".toList] =
+    .ok [("c.n".toList, .sc (.int (-5))), ("c.l".toList, .list [.str "a".toList, .str []])] [] [0, 0, 0] := by
+  decide
+
+example : LexOk demoTbl ⟨2, "--l".toList, ["a".toList, [] ]⟩ :=
+  ⟨by decide, ⟨_, rfl⟩, by decide, by
+    intro t ht
+    simp only [List.mem_cons, List.not_mem_nil, or_false] at ht
+    rcases ht with h | h <;> subst h <;> simp [NoDash]⟩
 
 end SpVerif.C02
